@@ -32,8 +32,12 @@
 (* the ID-field names across requests diverges on the last two).           *)
 (* drv: the paths driven in this behaviour (at most MaxDrive of them; with *)
 (* two, every ordered pair "p served under A, reload, q serves" occurs).   *)
-(* out / last: classification of the last event and the event itself;      *)
-(* a Reload forgets them (nothing is outstanding between requests).        *)
+(* out / last: classification of the event in hand and the event itself,    *)
+(* until Ack (the answer has gone back to the client and the observer has  *)
+(* taken note).  Requests are served one at a time, so Send and Reload     *)
+(* start from a state with nothing outstanding: every Send group of the    *)
+(* graph is then one distinct history class (view[p] against cfg / rv),    *)
+(* and the costly Reload is replayed once per such class.                  *)
 (*                                                                         *)
 (* Events are sets of the four ID fields holding a non-empty string (one   *)
 (* fixed value per field).  Paths in FixedT1 are OTLP trace translations,   *)
@@ -54,6 +58,7 @@ CONSTANTS T1, T2,       \* trace-ID field names
           LogPaths,     \* OTLP logs paths: every event is a log record
           Events,       \* set of events (subsets of {T1, T2, P1, P2})
           MaxDrive,     \* number of paths driven in one behaviour
+          Both,         \* TRUE: one Reload may change the main and the rules file together; FALSE: one file per Reload
           Refresh       \* "always": the statement (a path reads the configuration at every request).  "rules" / "never":
                         \* sanity variants that must VIOLATE the invariants below (a path keeps what it has in hand
                         \* until the rules change / for ever); never used by a cfg of the check itself
@@ -71,6 +76,8 @@ NoLast == [path |-> "-", evSet |-> {}]
 IdConfigsQuick == << [tn |-> <<T1>>, pn |-> <<P1>>],
                      [tn |-> <<T2>>, pn |-> <<P1>>],
                      [tn |-> <<T1>>, pn |-> <<P2>>] >>
+IdConfigsPairs == << [tn |-> <<T1>>, pn |-> <<P1>>],
+                     [tn |-> <<T2>>, pn |-> <<P2>>] >>
 IdConfigsBig == << [tn |-> <<T1>>, pn |-> <<P1>>],
                    [tn |-> <<T2>>, pn |-> <<P1>>],
                    [tn |-> <<T1>>, pn |-> <<P2>>],
@@ -110,7 +117,9 @@ Init == /\ drv \in {S \in SUBSET Paths : Cardinality(S) >= 1 /\ Cardinality(S) <
 
 \* path p receives one event: it reads the configuration in force (view is
 \* refreshed) and classifies the event by what it then has in hand
+Idle == last = NoLast
 Send(p, e) ==
+  /\ Idle
   /\ p \in drv /\ e \in EventsOf(p)
   /\ OneConfiguredTraceField(IdConfigs[cfg], e)
   /\ view' = [view EXCEPT ![p] = IF \/ Refresh = "always" \/ view[p] = Fresh
@@ -124,13 +133,21 @@ Send(p, e) ==
 \* the operator's files change and the configuration object is reloaded:
 \* main only (c changes), rules only (r changes) or both
 Reload(c, r) ==
+  /\ Idle
   /\ <<c, r>> # <<cfg, rv>>
+  /\ IF Both THEN TRUE ELSE (c = cfg \/ r = rv)
   /\ cfg' = c /\ rv' = r
-  /\ out' = NoOut /\ last' = NoLast
-  /\ UNCHANGED <<drv, view>>
+  /\ UNCHANGED <<drv, view, out, last>>
   /\ act' = [name |-> "Reload", tn |-> IdConfigs[c].tn, pn |-> IdConfigs[c].pn, keysSet |-> RuleSets[r]]
 
+\* the answer is delivered; nothing is outstanding any more
+Ack == /\ ~Idle
+       /\ out' = NoOut /\ last' = NoLast
+       /\ UNCHANGED <<drv, cfg, rv, view>>
+       /\ act' = [name |-> "Ack"]
+
 Next == \/ \E p \in Paths, e \in Events : Send(p, e)
+        \/ Ack
         \/ \E c \in 1..NC, r \in 1..NR : Reload(c, r)
 Spec == Init /\ [][Next]_vars
 
@@ -142,7 +159,7 @@ TypeOK == /\ drv \subseteq Paths
           /\ last.evSet \subseteq {T1, T2, P1, P2}
 
 Done == last # NoLast
-Cur == IdConfigs[cfg]     \* a Reload forgets out/last, so while Done holds cfg is the configuration the event was received under
+Cur == IdConfigs[cfg]     \* no Reload while an answer is outstanding, so while Done holds cfg is the configuration the event was received under
 
 \* C21: belongs to a trace exactly when a trace-ID field configured WHEN THE EVENT WAS RECEIVED holds a non-empty string
 C21LiveBelongs == Done => ((out.tid # "") <=> \E k \in 1..Len(Cur.tn) : Cur.tn[k] \in last.evSet)
